@@ -377,3 +377,37 @@ mod tests {
         )
     }
 }
+
+/// Verification hooks (only with `--cfg scylla_verif`): pass-through to the crate-private
+/// `execute` and `can_be_ignored`, so that the select loop can be driven with synthetic
+/// executions under a paused clock.
+#[cfg(scylla_verif)]
+#[allow(missing_docs)]
+pub mod verif_hooks {
+    use super::{Context, SpeculativeExecutionPolicy};
+    use crate::errors::RequestError;
+    use std::future::Future;
+
+    /// `Context` is `#[non_exhaustive]`; this is the only way to build one outside the crate.
+    pub fn context() -> Context {
+        Context {
+            #[cfg(feature = "metrics")]
+            metrics: std::sync::Arc::new(crate::observability::metrics::Metrics::new()),
+        }
+    }
+
+    pub async fn execute<QueryFut, T>(
+        policy: &dyn SpeculativeExecutionPolicy,
+        context: &Context,
+        query_runner_generator: impl FnMut(bool) -> QueryFut,
+    ) -> Result<T, RequestError>
+    where
+        QueryFut: Future<Output = Option<Result<T, RequestError>>>,
+    {
+        super::execute(policy, context, query_runner_generator).await
+    }
+
+    pub fn can_be_ignored<ResT>(result: &Result<ResT, RequestError>) -> bool {
+        super::can_be_ignored(result)
+    }
+}
